@@ -294,12 +294,12 @@ theorem openBlock_sealed (body body' : Bytes) (hl : body'.length = body.length) 
     rw [hlen, ← hb, List.append_assoc]
     simp only [BLOCK_META_CHECKSUM_SIZE]
     rw [show body'.length + 12 - 12 = body'.length by omega, List.take_left' rfl]
-  simp only [openBlock]
+  simp only [openBlock, openBlockCfg]
   rw [if_neg (by simp only [BLOCK_META_SIZE]; omega)]
   simp only [e_ct, e_ck, e_body]
   split
   · right; rfl
   · left
-    simp [CkType.ofCode?, verifyChecksum, buildChecksum, hne]
+    simp [CkType.ofCode?, verifyStored, verifyChecksum, buildChecksum, hne]
 
 end RlModel
